@@ -390,12 +390,17 @@ def check_decimal_discipline(repo, rep):
         outs = W.run_function(repo, "jesse/utils.py", name, lambda it: ([A("a"), A("b")], {}))
         for out in outs:
             want = A("a") + A("b") if sign == 1 else A("a") - A("b")
-            if out.kind != "return" or not (isinstance(out.value, R) and out.value.same(want)):
+            # every conversion to Decimal on this path (through helpers too): of the shortest decimal text str(x) of an operand -
+            # not of the binary float itself, not of a text with a fixed number of digits
+            convs = [e for e in out.events if e[0] == "decimal"]
+            lossy = [e[1] for e in convs if e[1] != "str"]
+            operands = [e[2] for e in convs if e[1] == "str"]
+            both = any(isinstance(x, R) and x.same(A("a")) for x in operands) and any(isinstance(x, R) and x.same(A("b")) for x in operands)
+            if lossy or not both:
+                rep.violation(rid, f"utils.{name}|decimal", f"utils.{name} does not compute on Decimal(str(.)) of both operands: conversions on the path {out.conds}: "
+                                                             f"{[e[1] for e in convs]}" + (f" - {lossy[0]} is not the exact decimal text of the operand" if lossy else ""))
+            elif out.kind != "return" or not (isinstance(out.value, R) and out.value.same(want)):
                 rep.violation(rid, f"utils.{name}|value", f"utils.{name}(a, b) evaluates to {out.value!r}")
-        decs = [c for c in ast.walk(fn) if isinstance(c, ast.Call) and norm(c.func).endswith("Decimal")]
-        strs = [c for c in decs if c.args and isinstance(c.args[0], ast.Call) and norm(c.args[0].func) == "str"]
-        if len(decs) < 2 or len(strs) != len(decs):
-            rep.violation(rid, f"utils.{name}|decimal", f"utils.{name} does not compute on Decimal(str(.)) of both operands: {src[:120]}")
         rep.instance(rid, f"utils.{name}", {"source": src[-80:]})
     if n < 8:
         raise AnalysisError(f"C04-R5: only {n} ledger stores found (anchor moved)")
